@@ -1,6 +1,7 @@
 package pvbft
 
 import (
+	"encoding/json"
 	"fmt"
 	"math"
 	"reflect"
@@ -28,7 +29,7 @@ import (
 //            seed is a SHA-512 output.
 // Oracle (explicit, from the property text): lists are subsets of the table values, duplicate
 // free, |proposers| >= C+1, |endorsers|,|committers| >= 2C, endorsers/committers disjoint from the
-// first C proposers; a second evaluation by a different node (other Server index, fresh objects,
+// first C proposers; histories: after the configuration was built and used, 0..3 further chain configurations (same/smaller/larger pools, other heights) are generated in the same process and the selection is repeated on the same object, on a JSON-decoded copy and on a freshly built one; a second evaluation by a different node (other Server index, fresh objects,
 // peers listed in another order) yields the same selection. Errors of buildParticipantConfig are
 // allowed and counted.
 
@@ -49,6 +50,16 @@ type c40Case struct {
 	Seed ev.B `json:"seed,omitempty"`
 	// second node
 	Index2 uint32 `json:"index2"`
+	// further chain configurations generated (by the real GenesisChainConfig, in the same process)
+	// AFTER the case's configuration was built and first used, while it is still in force
+	Later []c40Later `json:"later,omitempty"`
+}
+
+type c40Later struct {
+	N      int      `json:"n"`
+	Height uint32   `json:"height"`
+	Idx    []uint32 `json:"idx,omitempty"` // absent: the same indexes as the case's pool (first N of them) or 1..N
+	KeyOff int      `json:"keyoff,omitempty"`
 }
 
 func genSeed64() *rapid.Generator[[]byte] {
@@ -155,6 +166,25 @@ func genC40(t *rapid.T) c40Case {
 		c.Seed = genSeed64().Draw(t, "rawseed")
 	}
 	c.Index2 = rapid.Uint32Range(0, 50).Draw(t, "index2")
+	nl := rapid.SampledFrom([]int{0, 1, 1, 2, 3}).Draw(t, "nlater")
+	for i := 0; i < nl; i++ {
+		l := c40Later{Height: rapid.OneOf(rapid.Uint32Range(0, 3), rapid.Uint32()).Draw(t, "lheight")}
+		switch rapid.SampledFrom([]string{"same", "same", "smaller", "larger", "any"}).Draw(t, "lsize") {
+		case "same":
+			l.N = c.N
+		case "smaller":
+			l.N = rapid.IntRange(1, c.N).Draw(t, "ln")
+		case "larger":
+			l.N = rapid.IntRange(c.N, 40).Draw(t, "ln")
+		default:
+			l.N = rapid.IntRange(1, 40).Draw(t, "ln")
+		}
+		if rapid.Bool().Draw(t, "otherpool") {
+			l.Idx = genPeerIndexes(t, l.N)
+			l.KeyOff = rapid.SampledFrom([]int{0, 7, 20}).Draw(t, "keyoff")
+		}
+		c.Later = append(c.Later, l)
+	}
 	return c
 }
 
@@ -205,11 +235,51 @@ type selection struct {
 	Err      string
 }
 
-func selectC40(ctx *ev.Ctx, c c40Case, index uint32, reversed bool) selection {
+// laterConfigC40 generates another chain configuration with the real GenesisChainConfig.
+func laterConfigC40(ctx *ev.Ctx, c c40Case, l c40Later) *vconfig.ChainConfig {
+	if l.N < 1 {
+		return nil
+	}
+	peers := make([]*config.VBFTPeerInfo, l.N)
+	seen := map[uint32]bool{}
+	for i := range peers {
+		idx := pidx(i)
+		switch {
+		case len(l.Idx) == l.N:
+			idx = l.Idx[i]
+		case i < c.N:
+			idx = c.idxOf(i)
+		default:
+			idx = uint32(3000000 + i) // pool grew: fresh indexes
+		}
+		if seen[idx] || idx == math.MaxUint32 {
+			return nil
+		}
+		seen[idx] = true
+		a := acct(l.KeyOff + i)
+		peers[i] = &config.VBFTPeerInfo{Index: idx, PeerPubkey: world.PubHex(a), Address: a.Address.ToBase58()}
+	}
+	conf := &config.VBFTConfig{BlockMsgDelay: 5000, HashMsgDelay: 5000, PeerHandshakeTimeout: 10, MaxBlockChangeView: 1000}
+	var cfg *vconfig.ChainConfig
+	var err error
+	if p := ev.Catch(func() { cfg, err = vconfig.GenesisChainConfig(conf, peers, l.Height) }); p != "" {
+		ctx.Failf("GenesisChainConfig panicked on a well-formed peer list of %d: %s", l.N, p)
+	}
+	if err != nil {
+		ctx.Failf("GenesisChainConfig failed on a well-formed peer list: %v", err)
+	}
+	return cfg
+}
+
+func mustConfigC40(ctx *ev.Ctx, c c40Case, reversed bool) *vconfig.ChainConfig {
 	cfg, err := chainConfigC40(c, reversed)
 	if err != nil {
 		ctx.Failf("GenesisChainConfig failed on a well-formed peer list: %v", err)
 	}
+	return cfg
+}
+
+func selectC40(ctx *ev.Ctx, c c40Case, cfg *vconfig.ChainConfig, index uint32) selection {
 	srv, err := vbft.VerifNewServer(index, cfg)
 	if err != nil {
 		ctx.Failf("harness: VerifNewServer: %v", err)
@@ -321,12 +391,50 @@ func runC40(ctx *ev.Ctx, c c40Case) {
 			ctx.Label("idx:arbitrary<64")
 		}
 	}
-	cfg, _ := chainConfigC40(c, false)
-	a := selectC40(ctx, c, 1, false)
-	b := selectC40(ctx, c, c.Index2, true)
+	// node 1 generates configuration A, keeps the very object (as the Server does) and selects
+	cfg := mustConfigC40(ctx, c, false)
+	wire, err := json.Marshal(cfg) // what other nodes receive (ChainConfig.Serialize is JSON)
+	if err != nil {
+		ctx.Failf("harness: marshal chain config: %v", err)
+	}
+	own := map[uint32]bool{}
+	for i := 0; i < c.N; i++ {
+		own[c.idxOf(i)] = true
+	}
+	a := selectC40(ctx, c, cfg, 1)
+	// ... then the process generates further configurations (next governance change, other height)
+	var keep []*vconfig.ChainConfig
+	for _, l := range c.Later {
+		keep = append(keep, laterConfigC40(ctx, c, l))
+	}
+	if len(c.Later) > 0 {
+		ctx.Label(fmt.Sprintf("later-configs:%d", len(c.Later)))
+	}
+	// ... and A is still in force: same object again, a node holding the decoded copy, and a node
+	// that builds A afresh must all agree with the first selection
+	a2 := selectC40(ctx, c, cfg, 1)
+	if !reflect.DeepEqual(a, a2) {
+		ctx.Failf("the same node derives a different selection from the same configuration object after %d further chain configurations were generated (N=%d C=%d):\n before: %+v\n after:  %+v\n table now %v", len(c.Later), cfg.N, cfg.C, a, a2, clipU(cfg.PosTable))
+	}
+	for i, v := range cfg.PosTable {
+		if !own[v] {
+			ctx.Failf("position table slot %d of the configuration holds peer %d, which is not one of its %d peers (after %d further chain configurations were generated)", i, v, c.N, len(c.Later))
+		}
+	}
+	dec := &vconfig.ChainConfig{}
+	if err := json.Unmarshal(wire, dec); err != nil {
+		ctx.Failf("harness: unmarshal chain config: %v", err)
+	}
+	d := selectC40(ctx, c, dec, c.Index2)
+	if !reflect.DeepEqual(a, d) {
+		ctx.Failf("a node holding the decoded copy of the configuration derives a different selection (N=%d C=%d):\n node 1 (generated it): %+v\n node %d (decoded it):  %+v", cfg.N, cfg.C, a, c.Index2, d)
+	}
+	b := selectC40(ctx, c, mustConfigC40(ctx, c, true), c.Index2)
 	if !reflect.DeepEqual(a, b) {
 		ctx.Failf("two nodes derive different selections from the same inputs (N=%d C=%d):\n node index 1:  %+v\n node index %d: %+v", cfg.N, cfg.C, a, c.Index2, b)
 	}
+	_ = keep
+	cfg = dec // the well-formedness oracle below reads the table of the pristine copy
 	if a.Err != "" {
 		distinct := map[uint32]bool{}
 		for _, v := range cfg.PosTable {
@@ -364,6 +472,13 @@ func runC40(ctx *ev.Ctx, c c40Case) {
 	}
 }
 
+func clipU(l []uint32) []uint32 {
+	if len(l) > 40 {
+		return l[:40]
+	}
+	return l
+}
+
 func minInt(a, b int) int {
 	if a < b {
 		return a
@@ -375,6 +490,7 @@ func TestC40(t *testing.T) {
 	ev.Drive(t, "C40",
 		"cases: N=1..40 peers with governance indexes 1..N, dense from an arbitrary base (around 64, 2^16, 2^31, top of range) or sparse arbitrary 32-bit values; C in {N/3 as GenesisChainConfig computes, (N-1)/3, smaller}; position table from the real GenesisChainConfig or an arbitrary (skewed / incomplete) table; "+
 			"seed through the real getParticipantSelectionSeed of a generated previous block (buildParticipantConfig) or a raw 64-byte seed (uniform, constant, single-bit, low-entropy) fed to calcParticipantPeers. "+
+			"histories: after the configuration was built and first used, 0..3 further chain configurations (same/smaller/larger pools, other heights) are generated in the same process, then the selection is repeated on the same object, on a JSON-decoded copy and on a freshly built configuration: all must agree and the table must still hold only its own peers. "+
 			"non-trivial: a selection was produced (no error) with C>=1, so minimum sizes, duplicate freedom and the exclusion of the leading proposers are all constraining; distinct by JSON encoding of the case",
 		genC40, runC40)
 }
